@@ -27,6 +27,9 @@ CONSTANTS
   SelfSendViaChannel = TRUE
   NegCodeIsErr = TRUE
   CtrlBatch = 0
+  StartIdle = FALSE
+  EveryExitStops = TRUE
+  RxDropAtLoopEnd = TRUE
 SPECIFICATION FairSpec
 PROPERTIES L_StopLeadsToRunReturn L_MustStopExit
 INVARIANTS TypeOK
